@@ -23,7 +23,8 @@ def run(ctx):
                       note=nm + '; counts forked over {0,1,2,k-1,k,k+1 for k*size in {64,128}, 4096/size(+1), 10^4}, shrink/reuse/regrow, moves', expect_reach=(300, 301, 303, 304, 306, 308),
                       max_paths=(4000 if q else 10**9)))
     T = [('bytecopy.d1.h4.n3', D(1, 4, 3, 1), [-4, -1, 0, -1, 0, 0], 200, ''), ('bytecopy.d2.h3.n2', D(2, 3, 2, 1, NEXTRA=1, SYMBOLIC_EXTRA=1), [-3, -1, 0, -1, 0, 0], 200, ''),
-         ('bytecopy.d3.h3.n2', D(3, 3, 2, 1, NRHS=2), [2, -1, 0, -1, 0, 0], 240, '')]
+         ('bytecopy.d3.h3.n2', D(3, 3, 2, 1, NRHS=2), [2, -1, 0, -1, 0, 0], 240, ''),
+         ('bytecopy.d2.h4.n2.local5', D(2, 4, 2, 1, LCELLN=5), [-3, -1, 0, -1, 0, 0], 240, 'local expansions 5 words, multipoles 1 word: the three buffers of a cell group have different sizes; both raw-memory constructors')]
     if not q:
         T += [('bytecopy.d2.h4.n3', D(2, 4, 3, 1), [-4, -1, 0, -1, 0, 0], 2400, ''), ('bytecopy.d3.h3.n3.float', D(3, 3, 3, 1, REALT='float'), [-3, -1, 0, -1, 0, 0], 2400, '')]
     for (n, d, a, tl, note) in T:
